@@ -75,6 +75,23 @@ Theorem C08_batched_rows : forall (X T : Type) (f : X -> T) (chunks : list (list
 Proof. intros. split; [apply batched_eval_rows | apply batched_eval_length]. Qed.
 Print Assumptions C08_batched_rows.
 
+(* ImportanceFlowProposal.draw: the points and their rows of per-proposal densities are filtered by the same mask, concatenated
+   and trimmed alike, so every returned row is the row of the sample it is returned with, and the returned samples are the
+   first n accepted points ... *)
+Theorem C08_draw_rows_aligned : forall (A B : Type) (f : A -> B) (n : nat) (bs : list (draw_batch A B)),
+  Forall (fun b => snd b = map f (snd (fst b))) bs ->
+  Forall (fun p => snd p = f (fst p)) (draw_aligned n bs) /\
+  map fst (draw_aligned n bs) = firstn n (concat (map (fun b => keep_by (fst (fst b)) (snd (fst b))) bs)).
+Proof. intros A B f n bs H. split; [exact (draw_aligned_rows A B f n bs H) | exact (draw_aligned_length A B f n bs H)]. Qed.
+Print Assumptions C08_draw_rows_aligned.
+
+(* ... and the variant "rows appended unfiltered, then trimmed" is refuted: one rejected point shifts every later row *)
+Theorem C08_draw_rows_unfiltered_refuted : exists (f : nat -> nat) (n : nat) (bs : list (draw_batch nat nat)),
+  Forall (fun b => snd b = map f (snd (fst b))) bs /\
+  ~ Forall (fun p => snd p = f (fst p)) (draw_rows_unfiltered n bs).
+Proof. exact draw_rows_unfiltered_refuted. Qed.
+Print Assumptions C08_draw_rows_unfiltered_refuted.
+
 (* non-vacuity: two affine layers on R *)
 Example C08_nonvacuous :
   let l (a b : R) : layer R R R := {| fwd := fun x => (a * x + b, ln a); inv := fun y => ((y - b) / a, - ln a) |} in
